@@ -148,6 +148,6 @@ theorem GoodM.serialize_eq {K : Nat} {st : St} (hr : RM K st) :
       have := h.2.2.1.cur_idle hr (hn e (by simp [effsOf]))
       simp only [RView.serialize, render, forRows_eq h.2.2.2, this]
   | scope sid d kid _ => intro t h _; cases t <;> simp only [GoodM] at h
-  | forRows sel lists row _ => intro t h _; cases t <;> simp only [GoodM] at h
+  | forRows en sel lists row _ => intro t h _; cases t <;> simp only [GoodM] at h
 
 end Leptos.RView
